@@ -7,7 +7,7 @@ use vcore::serde_json;
 use vcore::proptest::prelude::*;
 use vcore::{Cx, Level as VLevel, Res};
 
-const RULE: &str = "cases are (a) triples of templates: a generated part sequence (text fragments incl. empty and adjacent ones over an alphabet of 1-4 byte characters, holes with repeated/empty/odd labels and optional formatters, each part backed by a static, borrowed, owned or shared string) plus two partners derived from it -- the same meaning re-split at arbitrary character boundaries with extra empty fragments (equal by construction), one/two-edit mutants of the meaning (char replaced/inserted/deleted, hole renamed/dropped/inserted/swapped/turned into `{label}` text), or an independent sequence -- each built through one of new/new_ref/From<&[Part]>/new_owned/literal/literal_ref and up to two of by_ref/to_owned/clone; all 9 ordered comparisons are judged against the normal form (merge adjacent text, drop empty) and the laws, and every template is rendered with a property list containing duplicate keys into a String, through Display, a recording template::Write, a default-method Write, a failing Write and Event::msg; (b) the complete set of ordered pairs of part sequences up to length 3 (thorough: 4) over a 7-part alphabet; (c) rendering-focused single templates with larger property lists. Non-trivial = a pair whose fragment boundaries differ inside a run containing a multi-byte character, or a template with an empty fragment adjacent to a hole (for (c): a hole filled from the properties next to non-ASCII/empty text or an unfilled hole).";
+const RULE: &str = "cases are (a) triples of templates: a generated part sequence (text fragments incl. empty and adjacent ones over an alphabet of 1-4 byte characters, holes with repeated/empty/odd labels and optional formatters, each part backed by a static, borrowed, owned or shared string) plus two partners derived from it -- the same meaning re-split at arbitrary character boundaries with extra empty fragments (equal by construction), one/two-edit mutants of the meaning (char replaced/inserted/deleted, hole renamed/dropped/inserted/swapped/turned into `{label}` text), or an independent sequence -- each built through one of new/new_ref/From<&[Part]>/new_owned/literal/literal_ref and up to two of by_ref/to_owned/clone; all 9 ordered comparisons are judged against the normal form (merge adjacent text, drop empty) and the laws, and every template is rendered with a property list containing duplicate keys into a String, through Display, a recording template::Write, a default-method Write, a failing Write and Event::msg; (b) the complete set of ordered pairs of part sequences up to length 3 (thorough: 4) over a 7-part alphabet; (c) rendering-focused single templates with larger property lists; (d) single templates (fragments up to 12 chars) displayed as Render (through three Props kinds and Event::msg) and as Template under a format spec chosen at runtime: 12 fill/alignment/sign/#/0 variants x width none|0-40 x precision none|0-20. Non-trivial = a pair whose fragment boundaries differ inside a run containing a multi-byte character, or a template with an empty fragment adjacent to a hole (for (c): a hole filled from the properties next to non-ASCII/empty text or an unfilled hole; for (d): a width larger than some text fragment or a precision smaller than one).";
 
 fn text() -> impl Strategy<Value = String> {
     prop_oneof![
@@ -127,6 +127,29 @@ fn triple() -> impl Strategy<Value = Triple> {
 fn render_case() -> impl Strategy<Value = RenderCase> {
     (prop::collection::vec(part(), 1..10), shape(), props(12), opts())
         .prop_map(|(parts, shape, props, opts)| RenderCase { parts, shape, props, opts })
+}
+
+fn fmt_spec() -> impl Strategy<Value = FmtSpec> {
+    (
+        prop_oneof![2 => Just(0u8), 3 => 0u8..FLAG_VARIANTS.len() as u8],
+        prop_oneof![1 => Just(None), 3 => (0u8..=40).prop_map(Some)],
+        prop_oneof![2 => Just(None), 2 => (0u8..=20).prop_map(Some)],
+    )
+        .prop_map(|(variant, width, precision)| FmtSpec { variant, width, precision })
+}
+
+fn flag_case() -> impl Strategy<Value = FlagCase> {
+    // longer fragments than elsewhere so that small precisions and mid-size widths both bite
+    let long_text = prop_oneof![
+        1 => Just(String::new()),
+        4 => prop::collection::vec(prop::sample::select(TEXT_CHARS.to_vec()), 1..=12).prop_map(|v| v.into_iter().collect::<String>()),
+    ];
+    let p = prop_oneof![
+        55 => (long_text, flavor_s()).prop_map(|(t, f)| P::T(t, f)),
+        45 => (label(), fmt_id(), flavor_s()).prop_map(|(l, f, fl)| P::H(l, f, fl)),
+    ];
+    (prop::collection::vec(p, 0..7), shape(), prop_oneof![1 => Just(Vec::new()), 2 => props(5)], fmt_spec(), 0u8..4)
+        .prop_map(|(parts, shape, props, spec, via)| FlagCase { parts, shape, props, spec, via })
 }
 
 fn small_seqs(max_len: usize) -> Vec<Vec<u8>> {
@@ -276,7 +299,8 @@ fn main() {
         &[
             "the hole formatter is an opaque function: the reference applies the same format string to the native model value with std (values are strings, 64/128-bit integers, finite floats, bools, whose emit::Value Display/Debug forward formatting flags to the native impls)",
             "two templates that differ ONLY in the formatter attached to a hole are neither required equal nor unequal by the property text: counted as don't-care (the algebraic laws are still checked on the observed results)",
-            "escaping inside Debug of a Render/Template and outer formatting flags applied to a whole Render are not part of the property and are not checked",
+            "escaping inside Debug of a Render/Template is not part of the property and is not checked",
+            "displaying a Render/Template through a fmt::Formatter that carries flags (width, precision, fill/alignment, +, #, 0): text fragments and {label}s of absent holes must be written verbatim whatever the flags; a plain hole's VALUE inherits the flags, and is expected to come out as std formats the native value under the same flags (measured to be what the unpatched tree does on 12 M cases; a deviation that leaves the text intact gets its own signature render/flagged-display-value-formatting-differs); holes with their own formatter are unaffected because the pool's formatter functions use write!",
             "'static-demanding constructors (Template::new, Template::literal, Part::text, Part::hole) are fed generated data whose lifetime is extended for the duration of one case (see c16::extend)",
         ],
         |s| {
@@ -293,6 +317,10 @@ fn main() {
             s.require("hole:duplicate-key-with-different-values", 10_000);
             s.require("hole:empty-label", 20_000);
             s.require("render:writer-fails", 35_000);
+            s.require("display-with-width-or-precision", 25_000);
+            s.require("flagged:width>fragment-or-precision<fragment", 15_000);
+            s.require("flagged:no-value-inherits-flags(exact)", 10_000);
+            s.require("flagged:plain-hole-with-value", 8_000);
             for f in ["form:new", "form:new_ref", "form:from-slice", "form:new_owned", "form:literal", "form:literal_ref"] {
                 s.require(f, 15_000);
             }
@@ -317,6 +345,7 @@ fn main() {
             );
 
             s.gen("render", s.n(400_000, 10_000_000), render_case, check_render_case);
+            s.gen("display-flags", s.n(400_000, 10_000_000), flag_case, check_flag_case);
 
             // artifacts of the libFuzzer target `template_eq_render` (engine E6) are replayed through the same entry
             s.manual("fuzz-artifact", Vec::<Vec<u8>>::new(), |bytes, cx| {
